@@ -35,6 +35,7 @@ fn run_item(family: &str, idx: usize, p: &Params, w: &mut dyn Write) -> Option<S
         "c14" => suites::registry_exhaustive(idx, s, w, p.thorough),
         "c16" => suites::paging(idx, s, w, p.thorough),
         "c03" => suites::orderings(idx, s, w, p.thorough),
+        "mx" => suites::market_exhaustive(idx, s, w, p.thorough),
         "c17" => suites::pure_lines(idx, s, w, p.thorough),
         "random" => {
             let sim = if idx % 3 == 0 { default_world() } else { small_world() };
@@ -168,7 +169,7 @@ fn main() {
 
     // the work list
     let mut items: Vec<(String, usize)> = vec![];
-    for fam in ["corpus", "boundary", "c14", "c16", "c03", "c17"] {
+    for fam in ["corpus", "boundary", "c14", "c16", "c03", "mx", "c17"] {
         for idx in 0..64 {
             items.push((fam.to_string(), idx)); // run_item returns None past the end
         }
